@@ -49,6 +49,8 @@ type semGenOpts struct {
 	NoFuncInTargetIndex bool
 	NoFuncInForBounds   bool
 	GQualified          bool
+	SameNameBareInit    bool
+	SameNameOutsideInit bool // for bounds and assignment right-hand sides may read the declared / assigned name
 }
 
 // genWorkspace generates 1..MaxFiles files (simple layout: one statement per line, single spaces,
@@ -66,6 +68,9 @@ func genWorkspace(t *rapid.T, o semGenOpts) Workspace {
 		cfg.NoFuncInTargetIndex = o.NoFuncInTargetIndex
 		cfg.NoFuncInForBounds = o.NoFuncInForBounds
 		cfg.GQualified = o.GQualified
+		cfg.SameNameBareInit = o.SameNameBareInit
+		cfg.SameNameForOK = o.SameNameOutsideInit
+		cfg.SameNameAssignOK = o.SameNameOutsideInit
 		cfg.AritySlack = true
 		cfg.Globals = []string{"G1", "G2", "gfun", "Gtab"}
 		cfg.Builtins = builtinNames
